@@ -1463,6 +1463,26 @@ pub fn host_filter_gate() -> Value {
 					"observed": format!("status {status}, inner service called {ran} time(s)"), "expected": format!("status {want}{}", if want == 200 {", inner service called once"} else {", inner service not called"})});
 			}
 		}
+		// allow-list entries given as socket addresses (what a server typically passes for its own listen address)
+		for (addr, host, want) in [("127.0.0.1:9944", "127.0.0.1:9944", 200u16), ("127.0.0.1:9944", "127.0.0.1:9945", 403), ("[::1]:9944", "[::1]:9944", 200), ("[::1]:9944", "[::1]:9945", 403), ("[2001:db8::1]:80", "[2001:db8::1]:80", 200)] {
+			tried += 1;
+			let sa: std::net::SocketAddr = addr.parse().unwrap();
+			let calls = std::sync::Arc::new(AtomicUsize::new(0));
+			let calls2 = calls.clone();
+			let stub = tower::service_fn(move |_req: http::Request<jsonrpsee_server::HttpBody>| {
+				calls2.fetch_add(1, Ordering::SeqCst);
+				async { Ok::<_, jsonrpsee_core::BoxError>(http::Response::new(jsonrpsee_server::HttpBody::default())) }
+			});
+			let layer = match HostFilterLayer::new([sa]) { Ok(l) => l, Err(e) => return json!({"probe":"host_filter_gate","disagrees":true,"input":format!("allow-list [SocketAddr {addr}]"),"observed":format!("rejected: {e}"),"expected":"accepted"}) };
+			let mut svc = layer.layer(stub);
+			let req = http::Request::builder().method("POST").uri("/").header("host", host).body(jsonrpsee_server::HttpBody::default()).unwrap();
+			let status = match svc.call(req).await { Ok(rp) => rp.status().as_u16(), Err(_) => 0 };
+			let ran = calls.load(Ordering::SeqCst);
+			if status != want || (want == 200) != (ran == 1) {
+				return json!({"probe":"host_filter_gate","disagrees":true,"input":format!("allow-list [SocketAddr {addr}], Host header {host:?}"),
+					"observed": format!("status {status}, inner service called {ran} time(s)"), "expected": format!("status {want}")});
+			}
+		}
 		json!({"probe":"host_filter_gate","disagrees":false,"inputs_tried":tried})
 	})
 }
